@@ -683,7 +683,7 @@ var runTag = fmt.Sprintf("p%dt%d", os.Getpid(), time.Now().UnixNano()%100000)
 
 type c06Scn struct {
 	ID       int    `json:"id"`
-	Kind     string `json:"kind"`  // refuse | synhole | blackhole | slow | healthy | closing | mixed | switch | stall
+	Kind     string `json:"kind"`  // refuse | synhole | blackhole | slow | healthy | closing | mixed | switch | stall | stallclose
 	Route    string `json:"route"` // all | first | chash
 	ConnBuf  int    `json:"connbuf"`
 	IoBuf    int    `json:"iobuf"`
@@ -861,6 +861,8 @@ func runC06(s c06Scn) []ev {
 	// until conn.In, the io buffer and the kernel buffers are full and the connection writer is really
 	// blocked, keeps not reading for StallMs (many flush periods) while traffic goes on, then resumes and
 	// reads to the end.  It never closes.  Returns what was observed (event stall).
+	// kind stallclose: the same up to the end of the pause, then the endpoint closes the connection (the writer
+	// is inside a blocked write at that moment and gets the error itself) and serves the next one normally.
 	var stallEv ev
 	stall := func() ev {
 		x := dests[0]
@@ -925,12 +927,15 @@ func runC06(s c06Scn) []ev {
 		held := time.Since(tHold)
 		cRes := readCounters(key).sub(x.base)
 		acc := atomic.LoadInt64(&x.e.accepted)
+		if s.Kind == "stallclose" {
+			x.e.closeConns()
+		}
 		atomic.StoreInt32(&x.e.mode, mHealthy) // resumes; reads everything from now on
 		for j := 0; j < post && i < s.Lines; j++ {
 			i++
 			hand(i)
 		}
-		return ev{"ev": "stall", "scn": s.ID, "saturated": saturated, "stall_at": pre, "blocked_at": satAt,
+		return ev{"ev": "stall", "scn": s.ID, "kind": s.Kind, "saturated": saturated, "stall_at": pre, "blocked_at": satAt,
 			"fill_ms": int(tSat.Sub(t0) / time.Millisecond), "held_ms": int(held / time.Millisecond), "flush_ms": s.FlushMs,
 			"paused_ms": int(time.Since(t0) / time.Millisecond), "hold_restarts": resets,
 			"out_blocked": int(cSat.out), "out_resume": int(cRes.out), "slow_conn_resume": int(cRes.slowConn),
@@ -938,7 +943,7 @@ func runC06(s c06Scn) []ev {
 	}
 	go func() {
 		defer close(done)
-		if s.Kind == "stall" {
+		if s.Kind == "stall" || s.Kind == "stallclose" {
 			stallEv = stall()
 			return
 		}
